@@ -528,6 +528,14 @@ func (g *G) url() string {
 func (g *G) span() Span {
 	s := Span{TraceID: g.traceID(), SpanID: g.spanID(), Name: namePool[g.r.Intn(len(namePool))], Kind: int32(g.r.Intn(6)),
 		Start: g.u64(), End: g.u64(), Flags: g.u32(), Dropped: g.u32(), StatusCode: int32(g.r.Intn(3))}
+	if g.r.Chance(1, 8) {
+		// ptrace.SpanKind and ptrace.StatusCode are open int32 enums: values a newer protocol
+		// revision may define travel as numbers and must come back as the same numbers
+		s.Kind = []int32{6, 7, 100, 1 << 20, 1<<31 - 1}[g.r.Intn(5)]
+	}
+	if g.r.Chance(1, 8) {
+		s.StatusCode = []int32{3, 77, 1 << 20, 1<<31 - 1}[g.r.Intn(4)]
+	}
 	if g.r.Bool() {
 		s.Parent = g.spanID()
 	}
